@@ -56,7 +56,7 @@ type Loc struct {
 	slice Term   // kind 3: the slice value and plain index (for trigger-friendly reads)
 	pidx  Term
 	es    string
-	kind  int // 1 field, 2 cell, 3 elem, 4 struct object (ref), 5 array-in-cell element
+	kind  int // 1 field, 2 cell, 3 elem, 4 struct object (ref), 5 array-in-cell element, 6 field of a struct value at inner
 	arr   string
 	ref   Term
 	idx   Term
@@ -233,6 +233,8 @@ func (v *FV) load(st *State, l *Loc) Term {
 		return v.loadStruct(st.snap, l.ty, l.ref)
 	case 5:
 		return fmt.Sprintf("(select %s %s)", v.load(st, l.inner), l.idx)
+	case 6:
+		return fmt.Sprintf("(%s %s)", v.structSel(l.st, l.fi), v.load(st, l.inner))
 	}
 	panic("bad loc")
 }
@@ -249,6 +251,19 @@ func (v *FV) store(st *State, l *Loc, val Term) {
 		v.storeStruct(st.snap, l.ty, l.ref, val)
 	case 5:
 		v.store(st, l.inner, fmt.Sprintf("(store %s %s %s)", v.load(st, l.inner), l.idx, val))
+	case 6:
+		// field of a struct value stored at another location (slice element, array element, cell)
+		u := l.st.Underlying().(*types.Struct)
+		cur := v.load(st, l.inner)
+		var fs []string
+		for i := 0; i < u.NumFields(); i++ {
+			if i == l.fi {
+				fs = append(fs, val)
+			} else {
+				fs = append(fs, fmt.Sprintf("(%s %s)", v.structSel(l.st, i), cur))
+			}
+		}
+		v.store(st, l.inner, fmt.Sprintf("(mk_%s %s)", v.structSort(l.st, u), strings.Join(fs, " ")))
 	}
 }
 
@@ -435,6 +450,18 @@ func (v *FV) addrArrays(addr ssa.Value, mod map[string]bool, all *bool) {
 func (v *FV) addrArrays2(addr ssa.Value, mod map[string]bool, all *bool) {
 	switch a := addr.(type) {
 	case *ssa.FieldAddr:
+		// a field of a struct value inside a slice / array element lives in the element array
+		for x := a.X; ; {
+			if ia, ok := x.(*ssa.IndexAddr); ok {
+				v.addrArrays2(ia, mod, all)
+				return
+			}
+			if fa, ok := x.(*ssa.FieldAddr); ok {
+				x = fa.X
+				continue
+			}
+			break
+		}
 		st := a.X.Type().Underlying().(*types.Pointer).Elem()
 		v.fieldArraysRec(st, a.Field, mod)
 	case *ssa.IndexAddr:
@@ -1106,6 +1133,18 @@ func (v *FV) execInstr(fr *Frame, st *State, instr ssa.Instruction) {
 		if bl, ok := fr.locs[in.X]; ok && bl.kind == 4 {
 			base.T = bl.ref
 		}
+		if bl, ok := fr.locs[in.X]; ok && (bl.kind == 3 || bl.kind == 5 || bl.kind == 6) {
+			// pointer into a struct value held in a slice / array element
+			u := stT.Underlying().(*types.Struct)
+			ft := u.Field(in.Field).Type()
+			fr.locs[in] = &Loc{kind: 6, inner: bl, st: stT, fi: in.Field, ty: ft}
+			fn := "fldp_" + typeShort(stT) + "_" + mangle(u.Field(in.Field).Name())
+			v.pre("fn "+fn, fmt.Sprintf("(declare-fun %s (Int) Int)", fn))
+			v.pre("fnax "+fn, fmt.Sprintf("(assert (forall ((p Int)) (! (< (%s p) 0) :pattern ((%s p)))))", fn, fn))
+			fr.vals[in] = TV{T: fmt.Sprintf("(%s %s)", fn, base.T), Ty: in.Type(), Sort: "Int"}
+			v.notePtrLoc(fr.vals[in].T, fr.locs[in])
+			break
+		}
 		u := stT.Underlying().(*types.Struct)
 		ft := u.Field(in.Field).Type()
 		if _, isS := ft.Underlying().(*types.Struct); isS {
@@ -1127,7 +1166,11 @@ func (v *FV) execInstr(fr *Frame, st *State, instr ssa.Instruction) {
 			s := v.val(fr, in.X)
 			v.oblige("bounds", "", posStr(v.eng.fset, in.Pos()), "index in range", st.reach, v.inRange(idx, fmt.Sprintf("(sl_len %s)", s.T)))
 			fr.locs[in] = &Loc{kind: 3, arr: v.elemArray(t.Elem()), ref: fmt.Sprintf("(sl_arr %s)", s.T), idx: v.iadd(fmt.Sprintf("(sl_off %s)", s.T), idx), ty: t.Elem(), slice: s.T, pidx: idx, es: v.sortOf(t.Elem())}
-			fr.vals[in] = TV{T: "0", Ty: in.Type(), Sort: "Int"}
+			// the address of an element: never nil (the index is in range)
+			v.pre("fn elp", fmt.Sprintf("(declare-fun elp (Int %s) Int)", v.idx()))
+			v.pre("fnax elp", fmt.Sprintf("(assert (forall ((r Int) (i %s)) (! (< (elp r i) 0) :pattern ((elp r i)))))", v.idx()))
+			fr.vals[in] = TV{T: fmt.Sprintf("(elp (sl_arr %s) %s)", s.T, v.iadd(fmt.Sprintf("(sl_off %s)", s.T), idx)), Ty: in.Type(), Sort: "Int"}
+			v.notePtrLoc(fr.vals[in].T, fr.locs[in])
 		case *types.Pointer:
 			at := t.Elem().Underlying().(*types.Array)
 			v.oblige("bounds", "", posStr(v.eng.fset, in.Pos()), "index in range", st.reach, v.inRange(idx, v.idxLit(at.Len())))
@@ -2032,4 +2075,12 @@ func freeVarReadOnly(fn *ssa.Function, idx, depth int) bool {
 		}
 	}
 	return true
+}
+
+
+func (v *FV) notePtrLoc(t Term, l *Loc) {
+	if v.ptrLocs == nil {
+		v.ptrLocs = map[Term]*Loc{}
+	}
+	v.ptrLocs[t] = l
 }
